@@ -35,6 +35,15 @@ type routeSpec struct {
 	Len uint8  `json:"len"`
 	NH  uint32 `json:"nh"` // unique per route key
 	BGP bool   `json:"bgp"`
+	// number of paths the API route message carries (0 = 1); path i has next hop NH + i<<8, so no two keys share a path
+	NPaths int `json:"npaths,omitempty"`
+}
+
+func (s routeSpec) npaths() int {
+	if s.NPaths < 1 {
+		return 1
+	}
+	return s.NPaths
 }
 
 func (s routeSpec) prefix() *bnet.Prefix {
@@ -44,32 +53,41 @@ func (s routeSpec) prefix() *bnet.Prefix {
 	return bnet.NewPfx(bnet.IPv4(10<<24|s.Pfx<<16), s.Len).Ptr()
 }
 
-func (s routeSpec) nextHop() bnet.IP {
+func (s routeSpec) nextHop(i int) bnet.IP {
 	if s.V6 {
-		return bnet.IPv6(0xfe80000000000000, uint64(s.NH))
+		return bnet.IPv6(0xfe80000000000000, uint64(s.NH)|uint64(i)<<8)
 	}
-	return bnet.IPv4(192<<24 | s.NH)
+	return bnet.IPv4(192<<24 | s.NH | uint32(i)<<8)
 }
 
 // path builds the bio-rd path the merged RIB must have installed for the route (what RouteFromProtoRoute yields).
 func (s routeSpec) api() *routeapi.Route {
-	var p *route.Path
-	if s.BGP {
-		b := route.NewBGPPath()
-		b.BGPPathA.NextHop = s.nextHop().Ptr()
-		b.BGPPathA.Source = s.nextHop().Ptr()
-		b.BGPPathA.LocalPref = 100
-		b.BGPPathA.EBGP = true
-		p = &route.Path{Type: route.BGPPathType, BGPPath: b}
-	} else {
-		p = &route.Path{Type: route.StaticPathType, StaticPath: &route.StaticPath{NextHop: s.nextHop().Ptr()}}
+	var ps []*route.Path
+	for i := 0; i < s.npaths(); i++ {
+		if s.BGP {
+			b := route.NewBGPPath()
+			b.BGPPathA.NextHop = s.nextHop(i).Ptr()
+			b.BGPPathA.Source = s.nextHop(i).Ptr()
+			b.BGPPathA.LocalPref = 100
+			b.BGPPathA.EBGP = true
+			ps = append(ps, &route.Path{Type: route.BGPPathType, BGPPath: b})
+		} else {
+			ps = append(ps, &route.Path{Type: route.StaticPathType, StaticPath: &route.StaticPath{NextHop: s.nextHop(i).Ptr()}})
+		}
 	}
-	return route.NewRoute(s.prefix(), p).ToProto()
+	return route.NewRouteAddPath(s.prefix(), ps).ToProto()
 }
 
-func (s routeSpec) String() string {
-	return fmt.Sprintf("%s via %s", s.prefix().String(), s.nextHop().String())
+// pathNames are the "prefix via next hop" names of all paths of the route.
+func (s routeSpec) pathNames() []string {
+	var out []string
+	for i := 0; i < s.npaths(); i++ {
+		out = append(out, fmt.Sprintf("%s via %s", s.prefix().String(), s.nextHop(i).String()))
+	}
+	return out
 }
+
+func (s routeSpec) String() string { return strings.Join(s.pathNames(), " + ") }
 
 func genRoutes(rng *rand.Rand, n int) []routeSpec {
 	out := make([]routeSpec, n)
@@ -80,6 +98,10 @@ func genRoutes(rng *rand.Rand, n int) []routeSpec {
 			out[i].Len = 48
 		} else {
 			out[i].Len = 16
+		}
+		// one route in three carries two or three paths (ECMP static route, BGP multipath): legitimate for the API's Route message
+		if rng.IntN(3) == 0 {
+			out[i].NPaths = 2 + rng.IntN(2)
 		}
 	}
 	// routes that share a prefix must be of the same path type (a Loc-RIB route holds the paths of its best protocol)
@@ -121,7 +143,7 @@ type rig struct {
 	srcs   []*source
 	routes []routeSpec
 	pfx    []*bnet.Prefix
-	paths  []*route.Path
+	paths  [][]*route.Path // all paths of the key's route
 }
 
 func newRig(nsrc int, routes []routeSpec) *rig {
@@ -133,7 +155,7 @@ func newRig(nsrc int, routes []routeSpec) *rig {
 	for _, s := range routes {
 		r := route.RouteFromProtoRoute(s.api(), false)
 		g.pfx = append(g.pfx, r.Prefix())
-		g.paths = append(g.paths, r.Paths()[0])
+		g.paths = append(g.paths, r.Paths())
 	}
 	return g
 }
@@ -150,7 +172,16 @@ func (g *rig) apply(o op) error {
 	return nil
 }
 
-func (g *rig) contains(key int) bool { return g.lr.ContainsPfxPath(g.pfx[key], g.paths[key]) }
+// contains: the route of the key is present = the Loc-RIB holds at least one of its paths under its prefix (which of
+// the paths of a multi-path route get installed is bio-rd's choice; with no source left none of them may remain).
+func (g *rig) contains(key int) bool {
+	for _, p := range g.paths[key] {
+		if g.lr.ContainsPfxPath(g.pfx[key], p) {
+			return true
+		}
+	}
+	return false
+}
 
 // ---- sequential ----
 
@@ -200,7 +231,112 @@ type seqStats struct {
 	dupAdverts          int // adds by a source already advertising the key
 	multiSource         bool
 	lastSourceWithdraws bool
+	multiPathLastGone   int // times a route of two or more paths lost its last source
 	byOp                map[string]int
+}
+
+// checker holds the set-of-sources model of one rig and compares the Loc-RIB with it.
+type checker struct {
+	g      *rig
+	routes []routeSpec
+	model  []uint32 // per key: bit per source currently advertising it
+	dup    []bool   // the key has seen a repeated advertisement by one source
+	st     *seqStats
+	viol   func(clause string, f map[string]string, detail string)
+}
+
+func newChecker(g *rig, st *seqStats, viol func(string, map[string]string, string)) *checker {
+	return &checker{g: g, routes: g.routes, model: make([]uint32, len(g.routes)), dup: make([]bool, len(g.routes)), st: st, viol: viol}
+}
+
+// note applies an add / remove / drop to the model.
+func (ck *checker) note(o op) {
+	bit := uint32(1) << uint(o.Src)
+	gone := func(k int) {
+		if ck.model[k] == bit {
+			ck.st.lastSourceWithdraws = true
+			if ck.routes[k].npaths() > 1 {
+				ck.st.multiPathLastGone++
+			}
+		}
+		ck.model[k] &^= bit
+	}
+	switch o.K {
+	case "add":
+		if ck.model[o.Key]&bit != 0 {
+			ck.dup[o.Key] = true
+			ck.st.dupAdverts++
+		}
+		ck.model[o.Key] |= bit
+		if ck.model[o.Key]&^bit != 0 {
+			ck.st.multiSource = true
+		}
+	case "remove":
+		gone(o.Key)
+	case "drop":
+		for k := range ck.model {
+			gone(k)
+		}
+	}
+}
+
+// verify compares ContainsPfxPath for every key and the Loc-RIB dump with the model (i = index of the last operation).
+func (ck *checker) verify(i int, after string, trace func(int) string) {
+	g, st := ck.g, ck.st
+	owner := map[string]int{} // path name -> key
+	for k := range ck.routes {
+		exp := ck.model[k] != 0
+		got := g.contains(k)
+		st.checks++
+		for _, n := range ck.routes[k].pathNames() {
+			owner[n] = k
+		}
+		if !exp && !got {
+			ck.dup[k] = false // no source and not installed: the container is gone, earlier repetitions cannot matter any more
+		}
+		if got != exp {
+			e := "absent"
+			if exp {
+				e = "present"
+			}
+			ck.viol("presence", vf.F("expected", e, "dup_advert", ck.dup[k], "after", after, "paths_in_route", min(ck.routes[k].npaths(), 2)),
+				fmt.Sprintf("after op %d, route r%d (%s) is %s in the Loc-RIB but sources advertising it = %s; history: %s", i, k, ck.routes[k], map[bool]string{true: "present", false: "absent"}[got], srcSet(ck.model[k]), trace(i)))
+		}
+	}
+	// dump: every dumped path belongs to an advertised route, every advertised route has at least one path dumped
+	have := map[string]bool{}
+	for _, r := range g.lr.Dump() {
+		for _, p := range r.Paths() {
+			have[fmt.Sprintf("%s via %s", r.Prefix().String(), p.NextHop().String())] = true
+		}
+	}
+	st.checks++
+	extra, missing := false, false
+	var want []string
+	for n := range have {
+		if k, ok := owner[n]; !ok || ck.model[k] == 0 {
+			extra = true
+		}
+	}
+	for k := range ck.routes {
+		if ck.model[k] == 0 {
+			continue
+		}
+		want = append(want, ck.routes[k].String())
+		found := false
+		for _, n := range ck.routes[k].pathNames() {
+			found = found || have[n]
+		}
+		missing = missing || !found
+	}
+	if extra || missing {
+		anyDup := false
+		for k := range ck.dup {
+			anyDup = anyDup || ck.dup[k]
+		}
+		sort.Strings(want)
+		ck.viol("dump", vf.F("dup_advert", anyDup, "extra_routes", extra, "after", after), fmt.Sprintf("after op %d Loc-RIB dump = %v, advertised routes = %v; history: %s", i, keys(have), want, trace(i)))
+	}
 }
 
 func runSeq(c seqCase, st *seqStats, viol func(clause string, f map[string]string, detail string)) {
@@ -213,8 +349,7 @@ func runSeq(c seqCase, st *seqStats, viol func(clause string, f map[string]strin
 		}
 	}()
 	g := newRig(c.NSrc, c.Routes)
-	model := make([]uint32, len(c.Routes)) // bit per source
-	dup := make([]bool, len(c.Routes))     // the key has seen a repeated advertisement by one source
+	ck := newChecker(g, st, viol)
 	trace := func(upto int) string {
 		var b strings.Builder
 		for i := 0; i <= upto; i++ {
@@ -227,73 +362,13 @@ func runSeq(c seqCase, st *seqStats, viol func(clause string, f map[string]strin
 	}
 	for i, o := range c.Ops {
 		step = i
-		bit := uint32(1) << uint(o.Src)
-		switch o.K {
-		case "add":
-			if model[o.Key]&bit != 0 {
-				dup[o.Key] = true
-				st.dupAdverts++
-			}
-			model[o.Key] |= bit
-			if model[o.Key]&^bit != 0 {
-				st.multiSource = true
-			}
-		case "remove":
-			if model[o.Key] == bit {
-				st.lastSourceWithdraws = true
-			}
-			model[o.Key] &^= bit
-		case "drop":
-			for k := range model {
-				if model[k] == bit {
-					st.lastSourceWithdraws = true
-				}
-				model[k] &^= bit
-			}
-		}
+		ck.note(o)
 		if err := g.apply(o); err != nil {
 			viol("error", vf.F("op", o.K), fmt.Sprintf("op %d %s returned %v", i, o, err))
 		}
 		st.ops++
 		st.byOp[o.K]++
-		want := map[string]bool{}
-		for k := range c.Routes {
-			exp := model[k] != 0
-			got := g.contains(k)
-			st.checks++
-			if exp {
-				want[c.Routes[k].String()] = true
-			}
-			if !exp && !got {
-				dup[k] = false // no source and not installed: the container is gone, earlier repetitions cannot matter any more
-			}
-			if got != exp {
-				e := "absent"
-				if exp {
-					e = "present"
-				}
-				viol("presence", vf.F("expected", e, "dup_advert", dup[k], "after", o.K),
-					fmt.Sprintf("after op %d, route r%d (%s) is %s in the Loc-RIB but sources advertising it = %s; history: %s", i, k, c.Routes[k], map[bool]string{true: "present", false: "absent"}[got], srcSet(model[k]), trace(i)))
-			}
-		}
-		// dump: exactly the advertised routes
-		have := map[string]bool{}
-		for _, r := range g.lr.Dump() {
-			for _, p := range r.Paths() {
-				have[fmt.Sprintf("%s via %s", r.Prefix().String(), p.NextHop().String())] = true
-			}
-		}
-		st.checks++
-		if !sameKeys(have, want) {
-			anyDup := false
-			for k := range dup {
-				if dup[k] {
-					anyDup = true
-				}
-			}
-			extra := len(have) > len(want)
-			viol("dump", vf.F("dup_advert", anyDup, "extra_routes", extra, "after", o.K), fmt.Sprintf("after op %d Loc-RIB dump = %v, advertised = %v; history: %s", i, keys(have), keys(want), trace(i)))
-		}
+		ck.verify(i, o.K, trace)
 	}
 }
 
@@ -537,8 +612,8 @@ func checkConc(c concCase, run int, viol func(clause string, f map[string]string
 
 func main() {
 	vf.Main("C29", "exploration", func(r *vf.Run) {
-		r.Rule("sequential: PRNG histories of 40 operations (50% AddRoute, 35% RemoveRoute, 15% DropAllBySrc) by 2-4 sources over 3 route keys (IPv4 or IPv6, BGP or static path, keys may share a prefix and differ in the next hop); half of the histories never re-advertise a key a source is already advertising, the other half do; after EVERY operation ContainsPfxPath for every key, the Loc-RIB dump and nothing else is compared with the set-of-sources model. concurrent: 3-4 source goroutines with scripts of 6-12 operations plus a reader of 8-12 probes and a final quiescent probe of every key, call/return stamped from one atomic counter, checked with porcupine per route key (DropAllBySrc = one operation per key). distinct_nontrivial = distinct histories in which some key is advertised by two sources at once AND the last advertising source withdraws or is dropped (sequential), or in which operations of different goroutines on one key overlap in time (concurrent)")
-		r.Assume("a source is an opaque comparable value (the RIS client passes its *grpc.ClientConn); one goroutine per source, as in the RIS mirror", "routes carry exactly one path; distinct route keys map to distinct (prefix, path) pairs", "cross-key atomicity of DropAllBySrc is not claimed", "a porcupine timeout (30 s per key) makes the run inconclusive, not violated")
+		r.Rule("sequential: PRNG histories of 40 operations (50% AddRoute, 35% RemoveRoute, 15% DropAllBySrc) by 2-4 sources over 3 route keys (IPv4 or IPv6, BGP or static paths, keys may share a prefix and differ in the next hops; one route in three carries 2-3 paths in its API message); half of the histories never re-advertise a key a source is already advertising, the other half do; after EVERY operation ContainsPfxPath for every key, the Loc-RIB dump and nothing else is compared with the set-of-sources model. concurrent: 3-4 source goroutines with scripts of 6-12 operations plus a reader of 8-12 probes and a final quiescent probe of every key, call/return stamped from one atomic counter, checked with porcupine per route key (DropAllBySrc = one operation per key). distinct_nontrivial = distinct histories in which some key is advertised by two sources at once AND the last advertising source withdraws or is dropped (sequential), or in which operations of different goroutines on one key overlap in time (concurrent)")
+		r.Assume("a source is an opaque comparable value (the RIS client passes its *grpc.ClientConn); one goroutine per source, as in the RIS mirror", "distinct route keys never share a (prefix, path) pair; a route of several paths is present when the Loc-RIB holds at least one of its paths under its prefix (which ones get installed is bio-rd's choice) and absent when it holds none of them", "cross-key atomicity of DropAllBySrc is not claimed", "a porcupine timeout (30 s per key) makes the run inconclusive, not violated")
 		// the first witness of every signature is minimised (greedy removal of operations while the same
 		// clause with the same features still fires) before it is recorded
 		var shrunkMu sync.Mutex
@@ -589,11 +664,24 @@ func main() {
 				r.Violate(vf.Violation{Clause: clause, Features: f, Detail: detail, Case: c})
 			}
 		}
+		mkRIS := func(c risCase) func(string, map[string]string, string) {
+			return func(clause string, f map[string]string, detail string) {
+				r.Violate(vf.Violation{Clause: clause, Features: f, Detail: detail, Case: c})
+			}
+		}
 		if raw, ok := r.Replaying(); ok {
 			var k struct {
 				Kind string `json:"kind"`
 			}
 			vf.Decode(raw, &k)
+			if k.Kind == "ris" {
+				var c risCase
+				vf.Decode(raw, &c)
+				if w := runRIS(c, "replay", &seqStats{byOp: map[string]int{}}, mkRIS(c)); w != "" {
+					r.Inconclusive("RIS client phase: " + w)
+				}
+				return
+			}
 			if k.Kind == "conc" {
 				var c concCase
 				vf.Decode(raw, &c)
@@ -610,6 +698,7 @@ func main() {
 			return
 		}
 		var mu sync.Mutex
+		risWedged := ""
 		byOp := map[string]int{}
 		nseq := r.N(5000, 200000)
 		vf.Parallel(nseq, 8, func(i int) {
@@ -627,6 +716,7 @@ func main() {
 			mu.Unlock()
 			r.Count("sequential_operations", st.ops)
 			r.Count("repeated_advertisements", st.dupAdverts)
+			r.Count("multi_path_routes_losing_last_source", st.multiPathLastGone)
 			if st.multiSource && st.lastSourceWithdraws {
 				r.Nontrivial(fmt.Sprintf("seq/%d", i))
 			}
@@ -654,11 +744,45 @@ func main() {
 			}
 		})
 		r.Count("concurrent_histories", nconc)
+		// producer side: real RIS clients over scripted ObserveRIB streams
+		nris := r.N(150, 6000)
+		vf.Parallel(nris, 4, func(i int) {
+			c := genRIS(r.RandN("c29ris", i))
+			st := &seqStats{byOp: map[string]int{}}
+			if w := runRIS(c, fmt.Sprint(i), st, mkRIS(c)); w != "" {
+				r.Count("ris_watchdog_expiries", 1)
+				mu.Lock()
+				risWedged = w
+				mu.Unlock()
+			}
+			r.Eval(st.checks)
+			r.Count("ris_client_events", st.ops)
+			mu.Lock()
+			for k, v := range st.byOp {
+				byOp[k] += v
+			}
+			mu.Unlock()
+			if st.multiSource && st.lastSourceWithdraws {
+				r.Nontrivial(fmt.Sprintf("ris/%d", i))
+			}
+			if i < 1 {
+				r.Sample(map[string]any{"mode": "ris-clients", "sources": c.NSrc, "ops": c.Ops})
+			}
+		})
+		r.Count("ris_client_histories", nris)
+		for _, k := range []string{"stop", "eof", "break", "kill"} {
+			r.Count("ris_sources_gone_by_"+k, byOp["ris-"+k])
+			r.Require("ris_sources_gone_by_"+k, 10)
+		}
+		if risWedged != "" {
+			r.Inconclusive("RIS client phase: " + risWedged)
+		}
 		r.Set("sequential_ops_by_kind", byOp)
 		if n := r.Counter("porcupine_timeouts"); n > 0 {
 			r.Inconclusive(fmt.Sprintf("porcupine timed out on %d history partition(s)", n))
 		}
 		r.Require("sequential_operations", 1000)
+		r.Require("multi_path_routes_losing_last_source", 100)
 		r.Require("overlapping_operation_pairs", 100)
 	})
 }
